@@ -61,6 +61,10 @@ OPTION_DEVS = {
     "SwitchGDD1": lambda s: _crop(s, SwitchGDD=1),
     # conversion to thermal time with a yield formation shorter (in days) than one warm day's degree days
     "SwitchGDD1_short_yield_formation": lambda s: _crop(s, SwitchGDD=1, YldFormCD=15) if not s["crop"]["name"].endswith("GDD") else None,
+    # shape parameters at the ends of their documented ranges (0 = linear response of root deepening to stomatal stress)
+    "fshape_ex0": lambda s: _crop(s, fshape_ex=0),
+    "fshape_ex_positive": lambda s: _crop(s, fshape_ex=2.0),
+    "fshape_r_b_ends": lambda s: _crop(s, fshape_r=1.0, fshape_b=1.0),
     "PolStress0": lambda s: _crop(s, PolHeatStress=0, PolColdStress=0, TrColdStress=0),
     # field features MERGE into the field management already chosen (pairs of deviations put two features on the same field)
     "bunds_z0": lambda s: _fieldkw(s, "field", bunds=True, z_bund=0.0),
